@@ -10,6 +10,8 @@ import Reamber.Lemmas.RateLaws
 import Reamber.Generated.RateSchema
 import Reamber.Spec.Timing
 import Reamber.Lemmas.RateFormats
+import Reamber.Lemmas.RateSMWrite
+import Reamber.Props.C01
 import Reamber.Props.C06
 
 namespace Reamber.Rate
@@ -108,8 +110,9 @@ theorem rateChart_scales (g : Game) (r : Rat) (c : Chart) (hok : chartOk g c = t
       cases hp : c.preview with
       | none => simp [hs, hp] at hx
       | some pv =>
-        simp only [hs, hp] at hx
-        simp only [hs, hp, divCol_samples r sm hx, bind, Except.bind, scaleChart, if_true, Option.map_some]
+        simp only [hs, hp, Bool.and_eq_true, decide_eq_true_eq] at hx
+        simp only [hs, hp, divCol_samples r sm hx.1, bind, Except.bind, scaleChart, if_true, Option.map_some,
+          scalePreview, not_lt.mpr hx.2, if_false]
   · cases g <;> simp_all [scaleChart]
 
 /-- **rate_scales (map set)** — the full statement of the first sentence of C13 for the model: for every map set
@@ -145,18 +148,19 @@ theorem rateSet_spec (k : SetKind) (g : Game) (r : Rat) (s out : MapSet) (hok : 
 theorem rate_one (k : SetKind) (g : Game) (s : MapSet) (hok : setOk k g s = true) : rateSet k g 1 s = .ok s := by
   rw [rateSet_scales k g 1 s hok (by decide), scaleSet_one]
 
-/-- **rate_comp**: rate `a` then rate `b` equals rate `a * b` (exact in ℚ) -/
+/-- **rate_comp**: rate `a` then rate `b` equals rate `a * b` (exact in ℚ), for all `a, b > 0` (the property's
+quantifier; positivity keeps an osu preview point a preview point) -/
 theorem rate_comp (k : SetKind) (g : Game) (a b : Rat) (s : MapSet) (hok : setOk k g s = true)
-    (ha : a ≠ 0) (hb : b ≠ 0) :
+    (ha : 0 < a) (hb : 0 < b) :
     (rateSet k g a s >>= rateSet k g b) = rateSet k g (a * b) s := by
-  rw [rateSet_scales k g a s hok ha, rateSet_scales k g (a * b) s hok (mul_ne_zero ha hb)]
+  rw [rateSet_scales k g a s hok (ne_of_gt ha), rateSet_scales k g (a * b) s hok (ne_of_gt (mul_pos ha hb))]
   show rateSet k g b (scaleSet k g a s) = _
-  rw [rateSet_scales k g b _ (setOk_scale k g a s hok) hb, scaleSet_comp]
+  rw [rateSet_scales k g b _ (setOk_scale k g ha s hok) (ne_of_gt hb), scaleSet_comp k g ha]
 
 /-- corollary: rating back by `1 / r` restores the chart -/
-theorem rate_inverse (k : SetKind) (g : Game) (r : Rat) (s : MapSet) (hok : setOk k g s = true) (hr : r ≠ 0) :
+theorem rate_inverse (k : SetKind) (g : Game) (r : Rat) (s : MapSet) (hok : setOk k g s = true) (hr : 0 < r) :
     (rateSet k g r s >>= rateSet k g (1 / r)) = .ok s := by
-  rw [rate_comp k g r (1 / r) s hok hr (by simp [hr]), mul_one_div_cancel hr, rate_one k g s hok]
+  rw [rate_comp k g r (1 / r) s hok hr (by positivity), mul_one_div_cancel (ne_of_gt hr), rate_one k g s hok]
 
 /-- the Boolean specification at ε = 0 is the declarative statement, column by column: if `frameScales` accepts
 `out` for `inp`, then `out` has the columns of `inp` and each column is the scaled column (row order kept) -/
@@ -177,31 +181,6 @@ below is the tempo-map half, on the shared declarative semantics `Timing.timeAt`
 tempos are all multiplied by `r` places **every** position at `1/r` of its former time.  That is exactly what
 `SMMapSet.rate` must establish between the file-level `offset` and the maps (D04), and it fails if `offset` is left
 unscaled (`d04_offset_must_scale`).  The write → read claim itself is checked on the implementation only. -/
-
-open Timing in
-/-- tempo change with the tempo multiplied by `r` (position and metronome kept) -/
-def rateBc (r : Rat) (c : Timing.BcSnap) : Timing.BcSnap := { c with bpm := c.bpm * r }
-
-open Timing in
-theorem timeAtAux_rate (r : Rat) (rest : List BcSnap) (T : Rat) (cur : BcSnap) (s : Snap) :
-    timeAtAux (T / r) (rateBc r cur) (rest.map (rateBc r)) s = timeAtAux T cur rest s / r := by
-  have hb : ∀ b : Rat, beatLen (b * r) = beatLen b / r := fun b => by
-    simp only [beatLen]; rw [div_mul_eq_div_div]
-  induction rest generalizing T cur with
-  | nil =>
-    simp only [List.map_nil, timeAtAux, rateBc, hb]
-    ring
-  | cons nxt rest ih =>
-    simp only [List.map_cons, timeAtAux]
-    have e : (rateBc r nxt).snap = nxt.snap := rfl
-    rw [e]
-    split
-    · have : T / r + snapDist (rateBc r cur).snap nxt.snap (rateBc r cur).met * beatLen (rateBc r cur).bpm
-          = (T + snapDist cur.snap nxt.snap cur.met * beatLen cur.bpm) / r := by
-        simp only [rateBc, hb]; ring
-      rw [this, ih]
-    · simp only [rateBc, hb]
-      ring
 
 open Timing in
 /-- **rate_write_read_partial** (tempo-map half of "survives a write"): with the initial offset divided by `r`
@@ -247,49 +226,116 @@ theorem rate_write_read_qua (r : Rat) (c : Qua.Chart) (hr : r ≠ 0) (hm : Qua.M
   obtain ⟨d, hd⟩ := hw
   exact ⟨d, hd, Qua.qua_write_denotes (scaleQua r c) d hm' hk' hd⟩
 
-/-- **rate_write_read_osu_partial**: for every osu chart (key count 1..256, lanes inside it, no `,`/`:` in hit-sound
-file names, no `,` in sample file names) and every `r ≠ 0`: `OsuMap.rate(r)` returns the rated chart, and the three
-sections that `write` emits for it read back as the rated chart quantised by the format — object lines: the rated
-hits and holds with times truncated to whole ms; timing lines: the rated tempo points and SVs (values exactly);
-sample events: the rated sample events truncated to whole ms.  Hypotheses on the float renderer (`BpmOk`/`SvOk`:
-`repr` of the rated values reads back) are those of C01.
-_partial_ because C01 proves the round trip per section, not for the whole file text (section splitting and the
-`[General]…[Difficulty]` key/value lines, where `PreviewTime` lives, are not composed here); the preview point is
-covered in memory (`rateChart_scales`) and by the write → read correspondence check only. -/
-theorem rate_write_read_osu_partial (R : Osu.Render) (r : Rat) (c : Osu.Chart) (hr : r ≠ 0)
+/-- **rate_write_read_osu** — the whole file.  For every osu chart that has a preview point (`0 ≤ PreviewTime`; the
+"no preview" marker −1 is open finding N13a) and satisfies C01's hypotheses (key count 1..256, lanes inside it,
+hit-sound / sample file names without separators, whole-number AudioLeadIn / BeatDivisor / GridSize, the renderer
+hypotheses `BpmOk2` / `SvOk2` / `NumOk` on the floats actually written for the rated chart) and every `r ≠ 0`:
+`OsuMap.rate(r)` returns the rated chart, and reading the text `"\n".join(write())` of the rated chart gives the rated
+chart quantised by the format — hit, hold and sample-event times and the preview point truncated to whole milliseconds
+(each moves by less than 1 ms), tempo points and SVs at their exact rated times and values, everything else as C01's
+`quantize` says.  In particular the file's `PreviewTime` is `trunc (PreviewTime / r)` and its sample events are the
+rated sample events truncated.  Composition of `rateChart_scales` with C01's `read_writeText`. -/
+theorem rate_write_read_osu (R : Osu.Render) (r : Rat) (c : Osu.Chart) (hr : r ≠ 0) (hp : 0 ≤ c.md.previewTime)
     (hk : 0 < Osu.pyTrunc c.md.circleSize) (hk' : Osu.pyTrunc c.md.circleSize ≤ 256)
-    (hhits : ∀ h ∈ c.hits, 0 ≤ h.column ∧ h.column < Osu.pyTrunc c.md.circleSize ∧ ',' ∉ h.file ∧ ':' ∉ h.file)
-    (hholds : ∀ h ∈ c.holds, 0 ≤ h.column ∧ h.column < Osu.pyTrunc c.md.circleSize ∧ ',' ∉ h.file ∧ ':' ∉ h.file)
-    (hb : ∀ b ∈ (scaleOsu r c).bpms, Osu.BpmOk R b) (hs : ∀ b ∈ (scaleOsu r c).svs, Osu.SvOk R b)
-    (hf : ∀ s ∈ c.md.samples, ',' ∉ s.file) :
+    (hhits : ∀ h ∈ c.hits, Osu.ObjOk2 (Osu.pyTrunc c.md.circleSize) (.hit h))
+    (hholds : ∀ h ∈ c.holds, Osu.ObjOk2 (Osu.pyTrunc c.md.circleSize) (.hold h))
+    (hb : ∀ b ∈ (scaleOsu r c).bpms, Osu.BpmOk2 R b) (hs : ∀ b ∈ (scaleOsu r c).svs, Osu.SvOk2 R b)
+    (hm : Osu.MetaOk R c.md) (hnl : ∀ tl ∈ Osu.writeMeta (scaleOsu r c).md, ∀ t ∈ tl, '\n' ∉ R.tok t) :
     rateChart .osu r (encOsu c) = .ok (encOsu (scaleOsu r c)) ∧
-    (Osu.mapE (fun s => Osu.readHit s (Osu.pyTrunc c.md.circleSize))
-        ((((Osu.sortedObjs (scaleOsu r c)).map (Osu.writeObj (Osu.pyTrunc c.md.circleSize))).map R.line).filter Osu.isHit)
-      = .ok (Osu.quantize R.uni (scaleOsu r c)).hits ∧
-     Osu.mapE (fun s => Osu.readHold s (Osu.pyTrunc c.md.circleSize))
-        ((((Osu.sortedObjs (scaleOsu r c)).map (Osu.writeObj (Osu.pyTrunc c.md.circleSize))).map R.line).filter Osu.isHold)
-      = .ok (Osu.quantize R.uni (scaleOsu r c)).holds) ∧
-    (Osu.mapE Osu.readSv ((((scaleOsu r c).bpms.map Osu.writeBpm ++ (scaleOsu r c).svs.map Osu.writeSv).map R.line).filter Osu.isSliderVelocity)
-      = .ok (Osu.quantize R.uni (scaleOsu r c)).svs ∧
-     Osu.mapE Osu.readBpm ((((scaleOsu r c).bpms.map Osu.writeBpm ++ (scaleOsu r c).svs.map Osu.writeSv).map R.line).filter Osu.isTimingPoint)
-      = .ok (Osu.quantize R.uni (scaleOsu r c)).bpms) ∧
-    Osu.mapE Osu.readSample ((((scaleOsu r c).md.samples.map Osu.writeSample).map R.line).filter (Osu.startsWith Osu.pSample))
-      = .ok ((scaleOsu r c).md.samples.map Osu.qSample) := by
-  refine ⟨by rw [rateChart_scales .osu r _ (chartOk_encOsu c) hr, scaleChart_encOsu], ?_, ?_, ?_⟩
-  · apply Osu.readObjs_writeObjs R _ hk hk'
-    intro o ho
-    unfold Osu.sortedObjs at ho
-    rw [mem_isort'] at ho
-    simp only [scaleOsu, List.map_map, List.mem_append, List.mem_map, Function.comp_def] at ho
-    rcases ho with ⟨h, hh, rfl⟩ | ⟨h, hh, rfl⟩
-    · exact hholds h hh
-    · exact hhits h hh
-  · exact Osu.readTiming_writeTiming R (scaleOsu r c).bpms (scaleOsu r c).svs hb hs
-  · apply samples_roundtrip R
-    intro s hs'
-    simp only [scaleOsu, List.mem_map] at hs'
-    obtain ⟨s0, hs0, rfl⟩ := hs'
-    exact hf s0 hs0
+    Osu.readText (Osu.writeText R (scaleOsu r c)) = .ok (Osu.quantize R.uni (scaleOsu r c)) ∧
+    (Osu.quantize R.uni (scaleOsu r c)).md.previewTime = (Osu.pyTrunc (c.md.previewTime / r) : Rat) ∧
+    (Osu.quantize R.uni (scaleOsu r c)).md.samples =
+      c.md.samples.map (fun s => Osu.qSample { s with offset := s.offset / r }) := by
+  refine ⟨by rw [rateChart_scales .osu r _ (chartOk_encOsu c hp) hr, scaleChart_encOsu r c hp], ?_, rfl, ?_⟩
+  · apply Osu.read_writeText R (scaleOsu r c) hk hk'
+    · intro h hh
+      simp only [scaleOsu, List.mem_map] at hh
+      obtain ⟨h0, hh0, rfl⟩ := hh
+      exact hhits h0 hh0
+    · intro h hh
+      simp only [scaleOsu, List.mem_map] at hh
+      obtain ⟨h0, hh0, rfl⟩ := hh
+      exact hholds h0 hh0
+    · exact hb
+    · exact hs
+    · obtain ⟨m1, m2, m3, m4, m5, m6, m7, m8, m9, m10, m11, m12, m13⟩ := hm
+      refine ⟨m1, m2, m3, m4, m5, m6, m7, m8, m9, m10, m11, m12, ?_⟩
+      intro s hs'
+      simp only [scaleOsu, List.mem_map] at hs'
+      obtain ⟨s0, hs0, rfl⟩ := hs'
+      exact m13 s0 hs0
+    · exact hnl
+  · simp [Osu.quantize, Osu.qMeta, scaleOsu, List.map_map, Function.comp_def]
+
+/-! ### StepMania — the file of the rated set (composition with C03's writer model and C10's `beats_run_exact`) -/
+
+open SM in
+/-- **rate_write_read_sm_partial**.  `rateHdr` / `rateW` are the rated file-level fields and charts as `SMMapSet.rate`
+leaves them (offset, sample start, sample length, every object time and length divided by `r`, every tempo multiplied
+by `r`).  For every set whose charts are in C03's / C10's domain (`WChartOk`: tempo list = stored form of a tempo-change
+list with the 4-beat metronome, object and tempo times on the snap grid) and every `r > 0`:
+
+1. `SMMapSet.write` of the rated set is the file of the original set with `#OFFSET`, `#SAMPLESTART`, `#SAMPLELENGTH`
+   divided by `r` and every `#BPMS` tempo multiplied by `r`; the `#BPMS` beats, every note row of every chart, the string
+   tags and `#SELECTABLE` are identical (`TimingMap.beats` as executed is invariant under the rate change: `beats_rate`);
+2. read by the book (`SM.timeOfBeat`: integrate beat length over the `#BPMS` segments from `−1000·#OFFSET`), that header
+   places every beat at `1/r` of the time the original header gives it — so every note, hold end and tempo point of
+   the written rated file denotes the rated time;
+3. the sample window of the file is the rated one.
+
+_partial_: what is missing for `denote (writeText (rate r ms)) = rate r ms` is C03's own missing part (text of the
+header lines, `changesOf (written #BPMS) = cs` through `round6`, the pairing inverse, `timeAt ∘ beatAt = id` of C10) and
+the frame-level bridge from `rateSet .sm` to `rateHdr` / `rateW` (built for Quaver and osu, not for StepMania: the writer
+model merges the eight note lists into one kinded list).  The write → read correspondence check covers the composition. -/
+theorem rate_write_read_sm_partial {r : Rat} (hr : 0 < r) (h : WHeader) (charts : List WChart)
+    (hok : ∀ c ∈ charts, WChartOk c) :
+    SM.write (rateHdr r h) (charts.map (rateW r)) = (SM.write h charts).map (rateWritten r) ∧
+    (∀ (w : Written) (beat : Rat),
+        timeOfBeat (rateWritten r w).offsetSec (rateWritten r w).bpms beat = timeOfBeat w.offsetSec w.bpms beat / r) ∧
+    (∀ w : Written, (rateWritten r w).sampleStartSec = w.sampleStartSec / r ∧
+        (rateWritten r w).sampleLengthSec = w.sampleLengthSec / r ∧ (rateWritten r w).charts = w.charts) := by
+  refine ⟨sm_write_rate hr h charts hok, ?_, fun w => ⟨rfl, rfl, rfl⟩⟩
+  intro w beat
+  simp only [timeOfBeat, rateWritten, changesOf_rate]
+  have : -(1000 * (w.offsetSec / r)) = -(1000 * w.offsetSec) / r := by ring
+  rw [this]
+  exact rate_write_read_partial r _ _ _
+
+/-- non-vacuity of `WChartOk`: one tempo (120 bpm from 1000 ms), a hit on beat 1 and a hold from beat 2 to 3 -/
+def exW : SM.WChart :=
+  { chartType := "dance-single".toList, description := [], difficulty := [], difficultyVal := 1, groove := [],
+    bpms := [(1000, 120)], notes := [⟨.hit, 0, 1500, 0⟩, ⟨.hold, 1, 2000, 500⟩] }
+
+theorem exW_onGrid (t : Rat) (ht : t ∈ [(1000 : Rat), 1500, 2000, 2500]) :
+    Timing.OnGridAt (Timing.grid Timing.defaultMaxDiv) 1000 [⟨120, 4, ⟨0, 0, some 4⟩⟩] t := by
+  have h0 : (0 : Rat) ∈ Timing.grid Timing.defaultMaxDiv := Timing.zero_mem_grid (by decide)
+  simp only [List.mem_cons, List.not_mem_nil, or_false] at ht
+  rcases ht with rfl | rfl | rfl | rfl
+  · exact ⟨by decide +kernel, by
+      show Timing.frac ((1000 - 1000) / Timing.beatLen 120) ∈ _
+      rw [show Timing.frac ((1000 - 1000) / Timing.beatLen 120) = 0 by decide +kernel]; exact h0⟩
+  · exact ⟨by decide +kernel, by
+      show Timing.frac ((1500 - 1000) / Timing.beatLen 120) ∈ _
+      rw [show Timing.frac ((1500 - 1000) / Timing.beatLen 120) = 0 by decide +kernel]; exact h0⟩
+  · exact ⟨by decide +kernel, by
+      show Timing.frac ((2000 - 1000) / Timing.beatLen 120) ∈ _
+      rw [show Timing.frac ((2000 - 1000) / Timing.beatLen 120) = 0 by decide +kernel]; exact h0⟩
+  · exact ⟨by decide +kernel, by
+      show Timing.frac ((2500 - 1000) / Timing.beatLen 120) ∈ _
+      rw [show Timing.frac ((2500 - 1000) / Timing.beatLen 120) = 0 by decide +kernel]; exact h0⟩
+
+example : WChartOk exW := by
+  refine ⟨1000, [⟨120, 4, ⟨0, 0, some 4⟩⟩], by decide +kernel, by decide +kernel, by decide +kernel, by decide +kernel,
+    by decide +kernel, by decide +kernel, by decide +kernel, ?_, ?_⟩
+  · intro t ht
+    have hl : (SM.writeOrder exW.notes).map (·.1) = [1500, 2000, 2500] := by decide +kernel
+    rw [hl] at ht
+    exact exW_onGrid t (List.mem_cons_of_mem _ ht)
+  · intro t ht
+    have hl : exW.bpms.map (·.1) = [1000] := by decide +kernel
+    rw [hl] at ht
+    simp only [List.mem_cons, List.not_mem_nil, or_false] at ht
+    exact exW_onGrid t (by simp [ht])
 
 /-- non-vacuity: a Quaver chart inside the hypotheses (hit, hold, two tempo points, an SV, fractional and negative
 times), and what rating it by 3/2 does to its frames -/
@@ -302,6 +348,28 @@ example : (scaleQua (3/2) Qua.sampleChart).bpms = [⟨0, 180, 3⟩, ⟨10009 / 1
 example : let c : Osu.Chart := { hits := [{ offset := 7/2, column := 1 }], holds := [{ offset := 1, column := 0, length := 3/2 }] }
     (0 < Osu.pyTrunc c.md.circleSize ∧ Osu.pyTrunc c.md.circleSize ≤ 256) ∧
     (scaleOsu 2 c).hits = [{ offset := 7/4, column := 1 }] := by decide +kernel
+
+def exOsu : Chart :=
+  { lists := [("svs", ⟨["multiplier", "offset"], []⟩),
+              ("hits", ⟨["column", "offset", "hitsound_file"], [[.num 1, .num 1000, .str "a.wav"], [.num 2, .num 2000, .str ""]]⟩),
+              ("holds", ⟨["length", "column", "offset"], []⟩),
+              ("bpms", ⟨["kiai", "bpm", "metronome", "offset"], [[.bool false, .num 120, .num 4, .num 0]]⟩)],
+    samples := some ⟨["offset", "sample_file", "volume"], []⟩,
+    preview := some 1234,
+    extra := [("title", .str "t")] }
+
+/-! ## open finding N13a: the "no preview point" marker is rated like a time -/
+
+/-- osu's `PreviewTime: -1` means "no preview point" (every default-constructed or converted `OsuMap` has it).  The code
+divides it by `r` like a time: rate 2 gives −1/2 in memory, which `write` truncates to `PreviewTime: 0` — the rated
+file has a preview point at 0 ms, the original had none.  The specification (`scalePreview`) keeps the marker; the
+model, as the code, does not — which is why `chartOk .osu` asks for `0 ≤ preview`. -/
+theorem n13a_preview_marker :
+    (rateChart .osu 2 { exOsu with preview := some (-1) }).toOption.map (·.preview) = some (some (-1 / 2)) ∧
+    (match rateChart .osu 2 { exOsu with preview := some (-1) } with
+     | .ok out => chartScalesB 0 .osu 2 { exOsu with preview := some (-1) } out
+     | .error _ => true) = false ∧
+    Osu.pyTrunc (-1 / 2) = 0 := by decide +kernel
 
 /-! ## the error branches are not totalised away -/
 
@@ -333,15 +401,6 @@ example : rateLists 2 [⟨["offset", "column"], [[.num 10, .num 1]]⟩, ⟨["off
 example : rateLists 2 [⟨["offset", "bpm", "length"], [[.str "x", .num 1, .num 1]]⟩] = .error .type := by decide +kernel
 
 /-! ## non-vacuity: the hypotheses are satisfiable, on charts with empty hold / SV / sample lists too -/
-
-def exOsu : Chart :=
-  { lists := [("svs", ⟨["multiplier", "offset"], []⟩),
-              ("hits", ⟨["column", "offset", "hitsound_file"], [[.num 1, .num 1000, .str "a.wav"], [.num 2, .num 2000, .str ""]]⟩),
-              ("holds", ⟨["length", "column", "offset"], []⟩),
-              ("bpms", ⟨["kiai", "bpm", "metronome", "offset"], [[.bool false, .num 120, .num 4, .num 0]]⟩)],
-    samples := some ⟨["offset", "sample_file", "volume"], []⟩,
-    preview := some 1234,
-    extra := [("title", .str "t")] }
 
 def exSm : MapSet :=
   { maps := [{ lists := [("stops", ⟨["length", "offset"], [[.num 300, .num 600]]⟩),
